@@ -29,7 +29,7 @@ import (
 
 func init() {
 	register(&Rule{ID: "R-EQSHAPE", Doc: "shape of the recursive comparison (*lazyNode).equal: branches test the two operands only; strings are unescaped by the codec's decoder, each side from its own compacted text; computed verdicts use both operands and byte comparisons compare compacted texts; the recursion pairs element i with element i and member k with member k under a length/size comparison, answers false when the recursion does, and covers every element / member",
-		Run: ruleEqShape, Min: map[string]int{"v5": 8}})
+		Run: ruleEqShape, Min: map[string]int{"v5": 8, "legacy": 5}})
 }
 
 type eqAn struct {
@@ -282,14 +282,16 @@ func lenArg(v ssa.Value) (ssa.Value, bool) {
 }
 
 func ruleEqShape(c *Ctx) {
-	b := c.V5
-	if b == nil {
-		return
+	for _, b := range c.bodies() {
+		ruleEqShapeBody(c, b)
 	}
+}
+
+func ruleEqShapeBody(c *Ctx, b *Body) {
 	l := c.L
 	eq := b.equalRole()
 	if eq == nil || eq.Blocks == nil {
-		l.add("R-EQSHAPE", "v5", "anchor: recursive comparison of two nodes", "", Undecided, "no method of *lazyNode taking a *lazyNode and returning bool", false)
+		l.add("R-EQSHAPE", b.Name, "anchor: recursive comparison of two nodes", "", Undecided, "no method of *lazyNode taking a *lazyNode and returning bool", false)
 		return
 	}
 	a := &eqAn{b: b, fn: eq, oIdx: -1}
@@ -299,7 +301,7 @@ func ruleEqShape(c *Ctx) {
 		}
 	}
 	if a.oIdx < 0 {
-		l.add("R-EQSHAPE", "v5", "anchor: recursive comparison of two nodes", b.rel(eq.Pos()), Undecided, "second operand not found", false)
+		l.add("R-EQSHAPE", b.Name, "anchor: recursive comparison of two nodes", b.rel(eq.Pos()), Undecided, "second operand not found", false)
 		return
 	}
 	name := b.canonFname(eq)
@@ -326,11 +328,11 @@ func ruleEqShape(c *Ctx) {
 	key := name + ": every branch tests the two operands only"
 	switch {
 	case len(foreign) > 0:
-		l.add("R-EQSHAPE", "v5", key, b.rel(eq.Pos()), Violated, "a verdict of the comparison depends on something other than the two values: "+strings.Join(foreign, "; ")+" — two texts denoting the same value can then compare unequal (or different ones equal)", true)
+		l.add("R-EQSHAPE", b.Name, key, b.rel(eq.Pos()), Violated, "a verdict of the comparison depends on something other than the two values: "+strings.Join(foreign, "; ")+" — two texts denoting the same value can then compare unequal (or different ones equal)", true)
 	case len(constless) > 0:
-		l.add("R-EQSHAPE", "v5", key, b.rel(eq.Pos()), Violated, "branch condition computed from neither operand at "+strings.Join(constless, ", "), true)
+		l.add("R-EQSHAPE", b.Name, key, b.rel(eq.Pos()), Violated, "branch condition computed from neither operand at "+strings.Join(constless, ", "), true)
 	default:
-		l.add("R-EQSHAPE", "v5", key, b.rel(eq.Pos()), Discharged, fmt.Sprintf("%d branch conditions, each computed from the operands (and constants) only", nIf), true)
+		l.add("R-EQSHAPE", b.Name, key, b.rel(eq.Pos()), Discharged, fmt.Sprintf("%d branch conditions, each computed from the operands (and constants) only", nIf), true)
 	}
 	// wrappers (equal -> equalDepth): every other parameter of the role function is
 	// fed constants / the same parameter at the outermost call — not needed for the verdicts above.
@@ -348,7 +350,7 @@ func ruleEqShape(c *Ctx) {
 		calls := false
 		allInstrs(f, func(i ssa.Instruction) {
 			if ci, ok := i.(ssa.CallInstruction); ok {
-				if g := ci.Common().StaticCallee(); g != nil && g.Pkg == b.Codec && g.Name() == "Compact" {
+				if g := ci.Common().StaticCallee(); g != nil && g.Name() == "Compact" && ((b.Codec != nil && g.Pkg == b.Codec) || (g.Pkg != nil && g.Pkg.Pkg.Path() == "encoding/json")) {
 					calls = true
 				}
 			}
@@ -368,11 +370,11 @@ func ruleEqShape(c *Ctx) {
 		key := fmt.Sprintf("%s: computed verdict #%s uses both operands", name, b.retOrdinal(r))
 		s := a.sidesOf(v)
 		if !s["N"] || !s["O"] {
-			l.add("R-EQSHAPE", "v5", key, b.posOf(r), Violated, "the returned value is computed from {"+sideList(s)+"}: the answer ignores one of the two values", true)
+			l.add("R-EQSHAPE", b.Name, key, b.posOf(r), Violated, "the returned value is computed from {"+sideList(s)+"}: the answer ignores one of the two values", true)
 			continue
 		}
 		if f := foreignOf(s); f != "" {
-			l.add("R-EQSHAPE", "v5", key, b.posOf(r), Violated, "the returned value also depends on "+f, true)
+			l.add("R-EQSHAPE", b.Name, key, b.posOf(r), Violated, "the returned value also depends on "+f, true)
 			continue
 		}
 		why := "computed from both operands"
@@ -381,13 +383,89 @@ func ruleEqShape(c *Ctx) {
 				ok1, p1 := isCompact(call.Call.Args[0])
 				ok2, p2 := isCompact(call.Call.Args[1])
 				if !ok1 || !ok2 || p1 == "?" || p2 != swapSide(p1) {
-					l.add("R-EQSHAPE", "v5", key, b.posOf(r), Violated, "bytes.Equal is not applied to the compacted text of each operand: texts that differ only in insignificant whitespace would compare unequal", true)
+					l.add("R-EQSHAPE", b.Name, key, b.posOf(r), Violated, "bytes.Equal is not applied to the compacted text of each operand: texts that differ only in insignificant whitespace would compare unequal", true)
 					continue
 				}
 				why = "bytes.Equal(compact(" + p1 + "), compact(" + p2 + "))"
 			}
 		}
-		l.add("R-EQSHAPE", "v5", key, b.posOf(r), Discharged, why, true)
+		l.add("R-EQSHAPE", b.Name, key, b.posOf(r), Discharged, why, true)
+	}
+	// (Q5) texts are compared byte-wise only for scalars: a bytes.Equal over compacted texts is
+	// reached only after every container probe (the bool methods of the node type that
+	// advance `which`) has answered false for the first operand — two arrays, or arrays
+	// holding objects, are equal member-wise, not text-wise
+	{
+		var probes []*ssa.Function
+		for _, f := range b.srcFuncs(b.Lib) {
+			if f.Signature.Recv() == nil || !isPtrToNamed(f.Signature.Recv().Type(), "lazyNode") || f.Signature.Params().Len() != 0 {
+				continue
+			}
+			if f.Signature.Results().Len() != 1 || typeShort(f.Signature.Results().At(0).Type()) != "bool" {
+				continue
+			}
+			stores := false
+			allInstrs(f, func(i ssa.Instruction) {
+				if st, ok := i.(*ssa.Store); ok {
+					if fa, ok := st.Addr.(*ssa.FieldAddr); ok && fieldName(fa.X.Type(), fa.Field) == "which" {
+						stores = true
+					}
+				}
+			})
+			if stores {
+				probes = append(probes, f)
+			}
+		}
+		nCmp := 0
+		allInstrs(eq, func(i ssa.Instruction) {
+			call, ok := i.(*ssa.Call)
+			if !ok {
+				return
+			}
+			f := call.Call.StaticCallee()
+			if f == nil || f.Pkg == nil || f.Pkg.Pkg.Path() != "bytes" || f.Name() != "Equal" {
+				return
+			}
+			ok1, _ := isCompact(call.Call.Args[0])
+			if !ok1 {
+				return
+			}
+			nCmp++
+			key := fmt.Sprintf("%s: byte comparison #%d is reached only for values that are neither object nor array", name, nCmp)
+			node := call.Call.Args[0].(*ssa.Call).Call.Args[0]
+			var missing []string
+			for _, p := range probes {
+				found := false
+				for _, bb := range eq.Blocks {
+					iff, ok := bb.Instrs[len(bb.Instrs)-1].(*ssa.If)
+					if !ok {
+						continue
+					}
+					cv, neg := stripNot(iff.Cond)
+					pc, ok := cv.(*ssa.Call)
+					if !ok || pc.Call.StaticCallee() != p || pc.Call.Args[0] != node {
+						continue
+					}
+					fe := 1
+					if neg {
+						fe = 0
+					}
+					if edgeDominates(bb, fe, call.Block()) {
+						found = true
+					}
+				}
+				if !found {
+					missing = append(missing, fname(p))
+				}
+			}
+			if len(probes) == 0 {
+				l.add("R-EQSHAPE", b.Name, key, b.posOf(call), Undecided, "no container probe (bool method of *lazyNode that stores `which`) found", false)
+			} else if len(missing) > 0 {
+				l.add("R-EQSHAPE", b.Name, key, b.posOf(call), Violated, "the texts are compared without "+strings.Join(missing, ", ")+" having answered false for "+describeValue(node)+": containers would be compared by their spelling (member order, nested objects) instead of member-wise", true)
+			} else {
+				l.add("R-EQSHAPE", b.Name, key, b.posOf(call), Discharged, fmt.Sprintf("dominated by the false edges of %d container probe(s) on the first operand", len(probes)), true)
+			}
+		})
 	}
 	// (Q2) string comparisons
 	nStr := 0
@@ -460,9 +538,9 @@ func ruleEqShape(c *Ctx) {
 			}
 		}
 		if bad != "" {
-			l.add("R-EQSHAPE", "v5", key, b.posOf(bo), Violated, bad, true)
+			l.add("R-EQSHAPE", b.Name, key, b.posOf(bo), Violated, bad, true)
 		} else {
-			l.add("R-EQSHAPE", "v5", key, b.posOf(bo), Discharged, "decode(compact(N)) == decode(compact(O)) with the codec's own decoder", true)
+			l.add("R-EQSHAPE", b.Name, key, b.posOf(bo), Discharged, "decode(compact(N)) == decode(compact(O)) with the codec's own decoder", true)
 		}
 	})
 	// a value produced by a foreign unescaper used for a verdict
@@ -476,7 +554,7 @@ func ruleEqShape(c *Ctx) {
 			return
 		}
 		if f.Pkg.Pkg.Path() == "strconv" && strings.Contains(f.Name(), "nquote") {
-			l.add("R-EQSHAPE", "v5", name+": no foreign unescaper", b.posOf(i), Violated, "strconv."+f.Name()+" implements Go string syntax, not JSON's", true)
+			l.add("R-EQSHAPE", b.Name, name+": no foreign unescaper", b.posOf(i), Violated, "strconv."+f.Name()+" implements Go string syntax, not JSON's", true)
 		}
 	})
 	// (Q4) recursion sites
@@ -499,7 +577,7 @@ func ruleEqShape(c *Ctx) {
 	for _, ci := range callsTo(eq, func(cc *ssa.CallCommon) bool { return isRec(cc.StaticCallee()) }) {
 		call, ok := ci.(*ssa.Call)
 		if !ok {
-			l.add("R-EQSHAPE", "v5", name+": recursion result is used", b.posOf(ci), Violated, "the recursive comparison is deferred / spawned: its answer is dropped", true)
+			l.add("R-EQSHAPE", b.Name, name+": recursion result is used", b.posOf(ci), Violated, "the recursive comparison is deferred / spawned: its answer is dropped", true)
 			continue
 		}
 		callee := call.Call.StaticCallee()
@@ -585,14 +663,14 @@ func ruleEqShape(c *Ctx) {
 			ord = nObj
 		}
 		if form == "" {
-			l.add("R-EQSHAPE", "v5", fmt.Sprintf("%s: recursion at an unrecognised pairing", name), b.posOf(call), Violated, "recursive comparison of "+describeValue(x)+" with "+describeValue(y)+": neither element-with-element nor member-with-member", true)
+			l.add("R-EQSHAPE", b.Name, fmt.Sprintf("%s: recursion at an unrecognised pairing", name), b.posOf(call), Violated, "recursive comparison of "+describeValue(x)+" with "+describeValue(y)+": neither element-with-element nor member-with-member", true)
 			continue
 		}
 		key := fmt.Sprintf("%s: %s recursion #%d pairs like with like under a length comparison", name, form, ord)
 		if bad != "" {
-			l.add("R-EQSHAPE", "v5", key, b.posOf(call), Violated, bad, true)
+			l.add("R-EQSHAPE", b.Name, key, b.posOf(call), Violated, bad, true)
 		} else {
-			l.add("R-EQSHAPE", "v5", key, b.posOf(call), Discharged, detail, true)
+			l.add("R-EQSHAPE", b.Name, key, b.posOf(call), Discharged, detail, true)
 		}
 		// false answer -> false
 		key = fmt.Sprintf("%s: %s recursion #%d: a different pair makes the whole comparison different", name, form, ord)
@@ -625,16 +703,16 @@ func ruleEqShape(c *Ctx) {
 			}
 		}
 		if okF {
-			l.add("R-EQSHAPE", "v5", key, b.posOf(call), Discharged, why, true)
+			l.add("R-EQSHAPE", b.Name, key, b.posOf(call), Discharged, why, true)
 		} else {
-			l.add("R-EQSHAPE", "v5", key, b.posOf(call), Violated, why, true)
+			l.add("R-EQSHAPE", b.Name, key, b.posOf(call), Violated, why, true)
 		}
 	}
 	key = name + ": both container kinds are compared recursively"
 	if nArr >= 1 && nObj >= 1 {
-		l.add("R-EQSHAPE", "v5", key, b.rel(eq.Pos()), Discharged, fmt.Sprintf("%d element recursion(s), %d member recursion(s)", nArr, nObj), true)
+		l.add("R-EQSHAPE", b.Name, key, b.rel(eq.Pos()), Discharged, fmt.Sprintf("%d element recursion(s), %d member recursion(s)", nArr, nObj), true)
 	} else {
-		l.add("R-EQSHAPE", "v5", key, b.rel(eq.Pos()), Violated, fmt.Sprintf("%d element recursion(s), %d member recursion(s): a container kind is compared without looking inside", nArr, nObj), true)
+		l.add("R-EQSHAPE", b.Name, key, b.rel(eq.Pos()), Violated, fmt.Sprintf("%d element recursion(s), %d member recursion(s): a container kind is compared without looking inside", nArr, nObj), true)
 	}
 }
 
